@@ -336,6 +336,8 @@ fn purge_world(did: &CoreDID, scope: MethodScope, with_refs: bool, sched: &[u32]
   block_on(doc.generate_method(&st, JwkMemStore::ED25519_KEY_TYPE, JwsAlgorithm::EdDSA, Some("#other"), MethodScope::VerificationMethod)).map_err(|e| e.to_string())?;
   let fr = block_on(doc.generate_method(&st, JwkMemStore::ED25519_KEY_TYPE, JwsAlgorithm::EdDSA, Some("#k"), scope)).map_err(|e| e.to_string())?;
   let id: DIDUrl = did.to_url().join(format!("#{}", fr.trim_start_matches('#'))).unwrap();
+  // the method to purge is not the last entry of its collection: a rollback that re-inserts it would move it to the end
+  block_on(doc.generate_method(&st, JwkMemStore::ED25519_KEY_TYPE, JwsAlgorithm::EdDSA, Some("#later"), scope)).map_err(|e| e.to_string())?;
   let refs = with_refs && scope == MethodScope::VerificationMethod;
   if refs {
     doc.attach_method_relationship(&id, MethodRelationship::Authentication).map_err(|e| e.to_string())?;
